@@ -219,6 +219,14 @@ pub fn run_case(ctx: &mut Ctx, idx: u64) {
                 break;
             }
             Err((kind, detail)) => {
+                // a masked token refused by commit because of the row-size limit is a resource stop
+                if kind == "mask_validate_commit_disagree" && detail["in_mask"] == json!(true) && detail["commit"] == json!(false) {
+                    let t = detail["token"].as_u64().unwrap_or(0) as u32;
+                    if crate::tp::accepted_with_relaxed_limits(&v, None, &g, &hist, t) {
+                        ctx.rep.inconclusive("resource_stop");
+                        return;
+                    }
+                }
                 let d = json!({"case": pool::describe(ctx, &g, &v), "history": hist, "history_bytes": bytes_dbg(&v.trie().decode_raw(&hist)), "ops": ops, "oracle": detail});
                 let rp = ctx.replay(idx);
                 ctx.rep.violation(&kind, &tags, d, rp);
@@ -248,6 +256,10 @@ pub fn run_case(ctx: &mut Ctx, idx: u64) {
         let pol = walker::policy_for_step(&mut rng, step, steps);
         let Some(t) = walker::choose(&mut rng, &mask, &v, if step < 3 { Policy::Extending } else { pol }) else { break };
         if m.consume_token(t).is_err() {
+            if crate::tp::accepted_with_relaxed_limits(&v, None, &g, &hist, t) {
+                ctx.rep.inconclusive("resource_stop");
+                return;
+            }
             // already covered by the V-loop when t was examined; record anyway
             let d = json!({"case": pool::describe(ctx, &g, &v), "history": hist, "token": t});
             let rp = ctx.replay(idx);
